@@ -106,7 +106,7 @@ func runC02(t *simrt.Tape, o Opts) Outcome {
 		st.Class = fmt.Sprintf("%s|%v", scNames[sc], op.FaultDesc)
 		st.Sample = map[string]any{"scenario": scNames[sc], "faults_fired": op.FaultDesc, "target_seam_calls": op.Calls, "result": resStr(nil, op), "policy": pol.String()}
 	})
-	return finish(s, w, st, false)
+	return finish(s, w, st, true)
 }
 
 const (
